@@ -916,6 +916,18 @@ impl CraneliftCompiler {
                 // Do not delegate the check to the verifier, since registered functions can be
                 // changed after the program has been verified.
                 ebpf::CALL => {
+                    // Only helper calls are supported: refuse eBPF-to-eBPF calls (src == 1) and unknown
+                    // call kinds instead of compiling them into a call to the helper whose id happens to
+                    // equal the immediate.
+                    if insn.src != 0 {
+                        return Err(Error::new(
+                            ErrorKind::Other,
+                            format!(
+                                "[CRANELIFT] Error: unsupported call type #{} (insn #{insn_ptr:?})",
+                                insn.src
+                            ),
+                        ));
+                    }
                     let func_ref = self
                         .helper_func_refs
                         .get(&(insn.imm as u32))
